@@ -942,7 +942,16 @@ def rule_liveness(ctx):
     W.capture_loop_exits(ctx, P, "R7")
 
 
+def rule_flow_tables_after_failure(ctx):
+    """R6: a record that fails to parse does not stay behind in the TLS flow table, where it would be re-parsed in front of every later
+    segment of the connection (shared with C08.R3)"""
+    from ..engine import report as R
+    from . import C08
+    C08.rule_flow(R.Retag(ctx, "C08."))
+
+
 def run(ctx):
+    rule_flow_tables_after_failure(ctx)
     rule_liveness(ctx)
     rule_poison(ctx)
     rule_sites(ctx)
